@@ -17,6 +17,15 @@ CHECKS = {
  "C04": dict(cat="exploration", tech="reference-model monitor at the `prepared` tap: snapshot of the real prepare stage vs an independent manifest model, over configurations x build-directory histories",
    text="The real prepare stage is run for 12 (quick) / all 60 (thorough, exhaustive) (distribution, ABI, version, full) configurations from a clean directory and again on a build directory left by another configuration plus junk; the tap snapshot is compared path by path and byte by byte with what an independent model of the manifests predicts (ignore lists, flattening, configure, full-policy step, overwrite renames/links, drop-ins). A constructed base-name clash must be seen in every run.",
    note="Trusted: the manifest model in vlib/model.py (documented semantics, written without the project's code); the two full-policy file edits are accepted only in their documented form.", ref="5 C04"),
+ "C08": dict(cat="exploration", tech="invariant monitor over real builds: references (exec targets, change_profile, stack components, drop-ins) resolved against blocks defined in the same output",
+   text="For every distribution x normal/full (quick) or all 180 configurations (thorough, exhaustive) the real build output is scanned: each named transition target, change_profile target, stack component and AppArmorProfile= must resolve to a block defined in that same output (or the upstream policy it overlays, or a shipped variable); directive, flags-manifest and overwrite-list names are resolved against the source tree. Recorded data defects are listed in known_findings.json by (file, target).",
+   note="Trusted: scanner's block/target extraction; Cx targets resolve as children of the current profile (checked against the reference parser's x-table naming).", ref="5 C08"),
+ "C02": dict(cat="exploration", tech="history monitor: manifests (sha256 of every output path) of repeated real prebuild runs under different build-directory histories; in-process sequences in fresh worker processes",
+   text="Each chosen configuration is built twice from clean directories, once on a directory left by another configuration plus junk, and 6-8 more times when it contains multi-argument stack/exec directives; all manifests must be equal. At API level every file with a generating directive is run 20x in one process and, alone in a fresh process vs inside seed-drawn sequences of other files, must produce the same text. A deliberately non-deterministic directive registered only in the worker must be seen in every run.",
+   note="Trusted: sha256; the worker calls directive.Run of /repo's working tree. Map-order defects are probabilistic: repetitions bound the miss probability, they do not remove it.", ref="5 C02"),
+ "C05": dict(cat="exploration", tech="differential monitor across the three mode builds of the same (distribution, ABI, version, full) + generated headers through the real builders",
+   text="For 10 (quick) / all 60 (thorough, exhaustive) groups the none/complain/enforce builds are compared block by block (main profile, sub-profiles, hats, in every file): complain present/absent as the mode demands, all other flags and the rest of the header equal to the neither build, and the neither build's flags equal to the source flags as overridden by the flags manifests; 300 / 6000 generated multi-block headers go through the real complain/enforce builders in the worker.",
+   note="Trusted: the harness header parser (cross-checked against apparmor_parser -N block enumeration on one configuration per run).", ref="5 C05"),
 }
 REASONS = {}
 props = [json.loads(l) for l in open(os.path.join(V, "properties.jsonl"))]
